@@ -23,6 +23,7 @@ def run(ctx, db, tier):
     callback_coro(ctx, db)
     C02.result_used(ctx, db, 'C18.result-used', {'cocls::future_common::subscribe', 'cocls::co_awaiter::subscribe', 'cocls::awaiter::subscribe_check_ready'}, floor=4)
     refused_completes(ctx, db)
+    C02.subscribe_protocol(ctx, db, 'C18.reusable-after-refusal')
     summ = publish.Summaries(db)
     publish.check_no_touch(ctx, db, 'C18.publish-discipline', summ, functions=None, per_instance=False, floor=12)
     virtual_delete(ctx, db)
@@ -162,6 +163,10 @@ def callback_coro(ctx, db):
             cb = [c for c in calls(tr) if c.k == 'call' and (c.get('recv') == 'param:fn' or (c.get('callee_expr') or '').startswith('param:fn'))]
             if len(cb) != 1:
                 seen_bad = seen_bad or (f, 'the callback runs %d times on a path (%s)' % (len(cb), 'exception' if any(it.k == 'exception' for it in tr) else 'value'))
+            elif any(it.k == 'exception' for it in tr) and not cb[0].get('in_catch'):
+                # the exceptional await_result rethrows with a bare `throw;`: that needs an exception being handled, i.e. the callback
+                # has to run inside the handler
+                seen_bad = seen_bad or (f, 'on the exception path the callback runs outside the catch handler: await_result::get() rethrows the current exception with `throw;`, which terminates when no exception is being handled')
     f0 = fns[0]
     ctx.ob(rid, f0, f0['key'], seen_bad is None and n > 0, 'callback exactly once per outcome (%d instantiations)' % len(fns) + ('' if not seen_bad else ' -- ' + seen_bad[1]),
            desc=seen_bad[1] if seen_bad else None, inst=(seen_bad[0]['inst'] if seen_bad else None))
